@@ -411,6 +411,7 @@ func runHist(cfg *config) error {
 		return sig
 	}
 	var protoCases []string
+	var snapCases []string
 
 	if cfg.replay != "" {
 		b, err := os.ReadFile(cfg.replay)
@@ -520,6 +521,9 @@ func runHist(cfg *config) error {
 		if lastRun != nil && lastRun.Compactions > 0 {
 			res.Dist["compactions.done"] += lastRun.Compactions
 		}
+		if lastRun != nil && len(snapCases) < 4000 {
+			snapCases = append(snapCases, lastRun.SnapCases...)
+		}
 		if mode.proto && lastRun != nil {
 			if c, ok := lastRun.ProtoCase(); ok {
 				protoCases = append(protoCases, c)
@@ -571,6 +575,21 @@ func runHist(cfg *config) error {
 			return err
 		}
 		res.CaseFiles = append(res.CaseFiles, f)
+	}
+	for k := 0; k*1000 < len(snapCases); k++ {
+		hi := (k + 1) * 1000
+		if hi > len(snapCases) {
+			hi = len(snapCases)
+		}
+		f := filepath.Join(cfg.out, fmt.Sprintf("cases_snap_%d.v", k))
+		src := coqfmt.File([]string{"From YV Require Import Corr.SnapCache."}, "snapcase", "mismatches snapcheck", snapCases[k*1000:hi])
+		if err := os.WriteFile(f, []byte(src), 0o644); err != nil {
+			return err
+		}
+		res.CaseFiles = append(res.CaseFiles, f)
+	}
+	if len(snapCases) > 0 {
+		res.Dist["rebuild-plans.compared-with-model"] += len(snapCases)
 	}
 	return res.write(cfg.out)
 }
